@@ -1474,7 +1474,8 @@ fn to_z(e: io::Error) -> zipora::error::ZiporaError {
 
 fn typed_run(cx: &mut Run, be: Be, hard: bool, fam: Fam) {
     let cfg = cx.src.chan("cfg");
-    let planned = 2 + cfg.below(11);
+    // one run in eight writes and reads a long sequence of values through one writer / one reader
+    let planned = (2 + cfg.below(11)) * if cfg.chance(1, 8) { 5 } else { 1 };
     let ops = take_ops(cx, "ops", planned);
     let big = match be {
         Be::File => [64usize, 300, 6000, 140_000][cfg.weighted(&[12, 12, 12, 1])],
